@@ -137,6 +137,10 @@ def dump(config, repo=None):
     d = os.path.join(CACHE, th, config)
     done = os.path.join(d, '.done')
     if os.path.exists(done):
+        try:
+            os.utime(os.path.join(CACHE, th), None)      # most recently used: survives pruning
+        except OSError:
+            pass
         return d
     os.makedirs(os.path.join(CACHE, th), exist_ok=True)
     with open(os.path.join(CACHE, th, '.%s.lock' % config), 'w') as lk:
